@@ -44,6 +44,7 @@ def shards(tier, seed):
     out.append(("misc",))
     out += [("renderpairs", i, j) for i in range(len(RENDER_SPECS)) for j in range(len(RENDER_SPECS))]
     out.append(("long",))
+    out.append(("rawlines",))
     out.append(("reuse",))
     out += [("expiry", z) for z in ZONES]
     return out
@@ -161,6 +162,46 @@ def cookie_sets(r):
                             break
                 except Exception as e:  # noqa
                     r.violation(f"sets:middleware-exception:{type(e).__name__}", w, f"{iface} cookies {combo} behind identity middleware raised {e!r:.100}")
+
+
+RAW_LINES = [["sid=1; Path=/", "sid=1; Path=/", "theme=dark"], ["a=1", "b=2", "b=2"], ["a=1", "a=1"], ["a=1", "b=2", "a=1"], ["a=1", "a=1", "a=1", "z=9; HttpOnly"], ["x=1, y=2", "x=1, y=2", "k=v"]]
+
+
+def raw_cookie_app(iface, lines):
+    """An application that is not written with this library: it sends the given Set-Cookie field lines one by one (two code
+    paths refreshing the session cookie with the same value give two identical lines)."""
+    if iface == "wsgi":
+        def app(environ, start_response):
+            start_response("200 OK", [("Content-Type", "text/plain")] + [("Set-Cookie", l) for l in lines] + [("Content-Length", "2")])
+            return [b"ok"]
+        return app
+
+    async def aapp(scope, receive, send):
+        await send({"type": "http.response.start", "status": 200, "headers": [(b"content-type", b"text/plain")] + [(b"set-cookie", l.encode("latin-1")) for l in lines] + [(b"content-length", b"2")]})
+        await send({"type": "http.response.body", "body": b"ok"})
+    return aapp
+
+
+def raw_lines_family(r):
+    for lines in RAW_LINES:
+        for iface in ("wsgi", "asgi"):
+            W = _wrappers(iface)
+            for stack in ((), ("M",), ("M", "M"), ("E",), ("C",), ("X", "M")):
+                app = raw_cookie_app(iface, lines)
+                for name in stack:
+                    app = W[name](app)
+                req = SV.AReq()
+                res = SV.run_wsgi(app, SV.to_environ(req)) if iface == "wsgi" else SV.run_asgi(app, SV.to_scope(req), SV.to_messages(req))
+                r.count("evaluations")
+                r.count("distinct_nontrivial")
+                w = {"kind": "rawlines", "iface": iface, "lines": lines, "stack": list(stack)}
+                if res.exc is not None:
+                    r.violation(f"rawlines:exception:{type(res.exc).__name__}", w, f"{iface} raw application with Set-Cookie lines {lines} behind {stack} raised {res.exc!r:.100}")
+                    continue
+                got = [v for k, v in res.headers if k.lower() == "set-cookie" and not v.startswith(("mw=", "old="))]
+                if sorted(got) != sorted(lines):
+                    r.violation("rawlines:lines-changed", w, f"{iface} raw application sends Set-Cookie lines {lines}; behind middleware {stack} the client receives {got}")
+    r.sample({"kind": "rawlines", "lines": RAW_LINES[0], "stacks": ["none", "M", "MM", "E", "C", "XM"]})
 
 
 _W = {}
@@ -404,9 +445,21 @@ def run_shard(desc, tier):
             for name in ("a", "p%", "%Y"):
                 roundtrip(r, name, value, "percent", full=False)
                 roundtrip(r, name, value, "percent", full=True)
+        # Latin-1 text that, read as bytes, happens to be well-formed UTF-8 (what a mis-decoded page shows: 'Ã©', 'Â£', 'â\x82¬'):
+        # the value is this text, not what a repair step would make of it
+        for lead in range(0xC2, 0xF5):
+            for cont in (0x80, 0xA9, 0xBF):
+                n = 1 if lead < 0xE0 else (2 if lead < 0xF0 else 3)
+                roundtrip(r, "a", chr(lead) + chr(cont) * n, "utf8-like")
+                roundtrip(r, "a", "x " + chr(lead) + chr(cont) * n + "5", "utf8-like", full=True)
+        for value in ("Ã©", "Â£5 only", "â\x82¬", "ð\x9f\x98\x80", "caf\xc3\xa9 \xc2\xa3", "\xc3\xa9\xc3\xa9", "na\xc3\xafve; \xc3\xbc"):
+            for name in ("a", "$Version"):
+                roundtrip(r, name, value, "utf8-like")
         mutated_request_cookies(r)
         file_response_cookies(r)
         r.sample({"name": "a", "value": "%d-%m-%Y", "attributes": "default and all"})
+    elif desc[0] == "rawlines":
+        raw_lines_family(r)
     elif desc[0] == "long":
         for unit in ("é", ";", "a", '"', "\\", " x"):
             for n in (255, 1023, 1024, 1025, 4095, 5000):
@@ -437,6 +490,9 @@ def replay(w):
         x = run_render_pair(list(w["schedule"]), specs)
         bad = bool(x.obs["stuck"]) or list(x.obs["results"]) != alone
         return bad, {"results": repr(x.obs["results"]), "alone": repr(alone)}
+    elif w["kind"] == "rawlines":
+        raw_lines_family(r)
+        r.viol = {k: v for k, v in r.viol.items() if v[1].get("lines") == w["lines"] and v[1].get("iface") == w["iface"]}
     elif w["kind"] == "mutated":
         mutated_request_cookies(r)
     elif w["kind"] == "filecookies":
